@@ -4,6 +4,7 @@ import NurbsVerif.Lemmas.Pieces
 import NurbsVerif.Lemmas.SplitSurfSep
 import NurbsVerif.Lemmas.SplitExamples
 import NurbsVerif.Lemmas.SplitSurfUVMain
+import NurbsVerif.Lemmas.SplitUnclampedExamples
 
 /-!
 # C07  Splitting and Bézier decomposition reproduce the original piecewise
@@ -20,6 +21,13 @@ search, closed right end included): `split_curve_pieces_coincide`, `split_curve_
 right number, `p ≥ 1`, `p+1` equal knots at both ends, non-empty last span, points of one dimension),
 inner knots repeated at most `p` times, and the tolerance of `find_multiplicity` separating the split
 parameter from every knot different from it.
+
+Unclamped knot vectors (domain `[U_p, U_n]`, arbitrary sorted outer knots): `split_unclamped_curve_pieces_coincide`,
+`split_unclamped_curve_pieces_coincide_of_mult`, `split_unclamped_surface_u_pieces_coincide`,
+`split_unclamped_surface_v_pieces_coincide` (hypotheses `CurveWF` / `SplitKvWF` instead of `ClampedWF` /
+`ClampedKv`; each piece is evaluated at the affine image of `t ∈ [0,1]` in ITS OWN domain, which is a
+sub-interval of `[0,1]` because the constructor normalises the piece's whole knot range), and the
+rejection at both domain ends `split_curve_rejects_both_ends`, `split_surface_rejects_both_ends`.
 -/
 namespace C07
 open Geomdl Blossom
@@ -410,5 +418,250 @@ example : ∃ pieces : List (List ℚ × ℕ × List (List ℚ)),
     SplitEx.PS SplitEx.netS (by simp [SplitEx.PS]) SplitEx.mono_U (by omega) SplitEx.norm_U SplitEx.decompWF_row
     (by have := spanStarts_length_le 1 (fnOf SplitEx.V) 2; omega)
   exact ⟨pieces, h1, h2⟩
+
+/-! ## Unclamped knot vectors
+
+The library accepts knot vectors whose first / last `p+1` knots are not equal; the domain is then
+`[U_p, U_n]`.  `split_curve` cuts the refined knot vector at the split parameter `ub` as in the clamped
+case, so the left piece's knot vector runs over `[U_0, ub]` and the right piece's over `[ub, U_{n+p}]`;
+the pieces' constructor normalises these RANGES to `[0,1]`.  Hence `A`'s domain is
+`[(U_p - U_0)/(ub - U_0), 1]` and `B`'s is `[0, (U_n - ub)/(U_{n+p} - ub)]` (both `[0,1]` exactly when the
+respective end of the input is clamped), and "the affine map of each piece's domain onto its
+sub-interval" sends `A_p + t (A_nA - A_p)` to `U_p + t (ub - U_p)` and `B_p + t (B_nB - B_p)` to
+`ub + t (U_n - ub)`. -/
+
+/-- **Rejection at BOTH domain ends, curves, clamped or not**: `split_curve` (model `splitDir … 0`) at
+    `U_p` and at `U_n` is rejected – for an unclamped knot vector these are not the first / last knot.
+    (Only the lengths are needed to read the two knots.) -/
+theorem split_curve_rejects_both_ends (rat : Bool) (p : ℕ) (U : List K) (P : List (List K)) (tol : K)
+    (hp : p < U.length) (hn : P.length < U.length) :
+    splitDir (curveShape rat p U P) 0 (fnOf U p) tol = none ∧
+    splitDir (curveShape rat p U P) 0 (fnOf U P.length) tol = none := by
+  constructor
+  · apply split_rejects_ends; left
+    simp only [curveShape, Shape.kv, Shape.deg, List.getD_cons_zero]
+    exact (fnOf_getD U p hp).symm
+  · apply split_rejects_ends; right
+    simp only [curveShape, Shape.kv, Shape.size, List.getD_cons_zero]
+    exact (fnOf_getD U P.length hn).symm
+
+/-- **Rejection at BOTH domain ends, surfaces, either direction, clamped or not**: `split_surface_u` at
+    `Uu_pu`, `Uu_su` and `split_surface_v` at `Uv_pv`, `Uv_sv` are rejected. -/
+theorem split_surface_rejects_both_ends (rat : Bool) (pu pv : ℕ) (Uu Uv : List K) (su sv : ℕ)
+    (P : List (List K)) (tol : K)
+    (hpu : pu < Uu.length) (hsu : su < Uu.length) (hpv : pv < Uv.length) (hsv : sv < Uv.length) :
+    splitDir (surfShape rat pu pv Uu Uv su sv P) 0 (fnOf Uu pu) tol = none ∧
+    splitDir (surfShape rat pu pv Uu Uv su sv P) 0 (fnOf Uu su) tol = none ∧
+    splitDir (surfShape rat pu pv Uu Uv su sv P) 1 (fnOf Uv pv) tol = none ∧
+    splitDir (surfShape rat pu pv Uu Uv su sv P) 1 (fnOf Uv sv) tol = none := by
+  refine ⟨?_, ?_, ?_, ?_⟩
+  · apply split_rejects_ends; left
+    simp only [surfShape, Shape.kv, Shape.deg, List.getD_cons_zero]
+    exact (fnOf_getD Uu pu hpu).symm
+  · apply split_rejects_ends; right
+    simp only [surfShape, Shape.kv, Shape.size, List.getD_cons_zero]
+    exact (fnOf_getD Uu su hsu).symm
+  · apply split_rejects_ends; left
+    simp only [surfShape, Shape.kv, Shape.deg, List.getD_cons_zero, List.getD_cons_succ]
+    exact (fnOf_getD Uv pv hpv).symm
+  · apply split_rejects_ends; right
+    simp only [surfShape, Shape.kv, Shape.size, List.getD_cons_zero, List.getD_cons_succ]
+    exact (fnOf_getD Uv sv hsv).symm
+
+/-- **Splitting a curve whose knot vector need not be clamped, end to end.**  For a well-formed curve
+    (`CurveWF`: sorted knots, `|U| = n + p + 1`, `n ≥ p + 1`, non-empty last span of the domain, points
+    of one dimension) of degree `p ≥ 1` whose knots `U_1 … U_{n+p-1}` are repeated at most `p` times, an
+    interior parameter `U_p < ub < U_n` and a tolerance separating `ub` from every knot different from it,
+    `split_curve` (model `splitDir … 0`) is not rejected and returns two well-formed curves `A`, `B`
+    with: `A`'s knot vector starts at `0`, its domain starts at `A_p = (U_p - U_0)/(ub - U_0)` and it ends
+    with `p+1` ones; `B`'s starts with `p+1` zeros, its domain ends at
+    `B_nB = (U_n - ub)/(U_{n+p} - ub)` and its last knot is `1`; the sizes add up to `n + r + 1`; and for
+    EVERY `t ∈ [0,1]` (both ends), every coordinate,
+    `A(A_p + t (A_nA - A_p)) = C(U_p + t (ub - U_p))` and `B(B_p + t (B_nB - B_p)) = C(ub + t (U_n - ub))`,
+    each side evaluated with the span its own `find_span_linear` finds.  (For a clamped input
+    `A_p = 0`, `B_nB = 1`: this is `split_curve_pieces_coincide`.) -/
+theorem split_unclamped_curve_pieces_coincide (rat : Bool) (p d : ℕ) (U : List K) (P : List (List K)) (ub tol : K)
+    (hwf : CurveWF p d U P) (hp : 1 ≤ p) (hlo : fnOf U p < ub) (hhi : ub < fnOf U P.length)
+    (htol : 0 ≤ tol) (hsep : ∀ x ∈ U, |ub - x| ≤ tol → x = ub)
+    (hmul : ∀ i, 1 ≤ i → i < P.length → fnOf U i < fnOf U (i + p)) :
+    ∃ UA PA UB PB,
+      splitDir (curveShape rat p U P) 0 ub tol = some (curveShape rat p UA PA, curveShape rat p UB PB) ∧
+      CurveWF p d UA PA ∧ CurveWF p d UB PB ∧
+      fnOf UA 0 = 0 ∧ fnOf UA p = (fnOf U p - fnOf U 0) / (ub - fnOf U 0) ∧
+      (∀ i, PA.length ≤ i → fnOf UA i = 1) ∧
+      (∀ i, i ≤ p → fnOf UB i = 0) ∧
+      fnOf UB PB.length = (fnOf U P.length - ub) / (fnOf U (P.length + p) - ub) ∧
+      fnOf UB (PB.length + p) = 1 ∧
+      PA.length + PB.length = P.length + (p - findMultiplicity ub U tol) + 1 ∧
+      (∀ t, 0 ≤ t → t ≤ 1 → ∀ j,
+        (curvePoint p (fnOf UA) PA (fnOf UA p + t * (fnOf UA PA.length - fnOf UA p))).getD j 0
+          = (curvePoint p (fnOf U) P (fnOf U p + t * (ub - fnOf U p))).getD j 0) ∧
+      (∀ t, 0 ≤ t → t ≤ 1 → ∀ j,
+        (curvePoint p (fnOf UB) PB (fnOf UB p + t * (fnOf UB PB.length - fnOf UB p))).getD j 0
+          = (curvePoint p (fnOf U) P (ub + t * (fnOf U P.length - ub))).getD j 0) :=
+  split_curve_unclamped_sep rat p d U P ub tol hwf hp hlo hhi htol hsep hmul
+
+/-- The same with the hypotheses on `find_multiplicity` stated directly (`MultExact`) instead of being
+    derived from the tolerance separation (`find_multiplicity_exact` derives them for any `CurveWF`). -/
+theorem split_unclamped_curve_pieces_coincide_of_mult (rat : Bool) (p d : ℕ) (U : List K) (P : List (List K))
+    (ub tol : K)
+    (hwf : CurveWF p d U P) (hp : 1 ≤ p) (hlo : fnOf U p < ub) (hhi : ub < fnOf U P.length)
+    (hmx : MultExact p (fnOf U) (findSpanLinear p (fnOf U) P.length ub) (findMultiplicity ub U tol) ub) :
+    ∃ UA PA UB PB,
+      splitDir (curveShape rat p U P) 0 ub tol = some (curveShape rat p UA PA, curveShape rat p UB PB) ∧
+      CurveWF p d UA PA ∧ CurveWF p d UB PB ∧
+      fnOf UA 0 = 0 ∧ fnOf UA p = (fnOf U p - fnOf U 0) / (ub - fnOf U 0) ∧
+      (∀ i, PA.length ≤ i → fnOf UA i = 1) ∧
+      (∀ i, i ≤ p → fnOf UB i = 0) ∧
+      fnOf UB PB.length = (fnOf U P.length - ub) / (fnOf U (P.length + p) - ub) ∧
+      fnOf UB (PB.length + p) = 1 ∧
+      PA.length + PB.length = P.length + (p - findMultiplicity ub U tol) + 1 ∧
+      (∀ t, 0 ≤ t → t ≤ 1 → ∀ j,
+        (curvePoint p (fnOf UA) PA (fnOf UA p + t * (fnOf UA PA.length - fnOf UA p))).getD j 0
+          = (curvePoint p (fnOf U) P (fnOf U p + t * (ub - fnOf U p))).getD j 0) ∧
+      (∀ t, 0 ≤ t → t ≤ 1 → ∀ j,
+        (curvePoint p (fnOf UB) PB (fnOf UB p + t * (fnOf UB PB.length - fnOf UB p))).getD j 0
+          = (curvePoint p (fnOf U) P (ub + t * (fnOf U P.length - ub))).getD j 0) :=
+  split_curve_unclamped_main rat p d U P ub tol hwf hp hlo hhi hmx
+
+/-- **Splitting a surface in u, u knot vector clamped or not, end to end** (model `splitDir … 0` =
+    `split_surface_u`).  `SplitKvWF pu su Uu`: sorted, `|Uu| = su + pu + 1`, `su ≥ pu + 1`, non-empty last span,
+    `pu ≥ 1`; knots `Uu_1 … Uu_{su+pu-1}` repeated at most `pu` times, `ub` interior and separated by `tol`;
+    the v knot vector only needs to be sorted with a non-degenerate range (clamped or not).  Both pieces
+    have well-formed u knot vectors with the domain ends as in the curve theorem, nets of the right size,
+    u sizes adding up to `su + r + 1`; and for every `t ∈ [0,1]`, every `v` of the domain:
+    `A(A_p + t (A_nA - A_p), v') = S(U_p + t (ub - U_p), v)`, `B(B_p + t (B_nB - B_p), v') = S(ub + t (U_n - ub), v)`,
+    where `v'` is `v` under the normalisation of the v knot vector that the pieces' constructor performs. -/
+theorem split_unclamped_surface_u_pieces_coincide (rat : Bool) (pu pv d : ℕ) (Uu Uv : List K) (su sv : ℕ)
+    (P : List (List K)) (ub tol : K)
+    (hP : NetOk d P) (hlenP : P.length = su * sv)
+    (hVm : Monotone (fnOf Uv)) (hVne : Uv ≠ []) (hVr : Uv.headD 0 < Uv.getLastD 0) (hsv : pv + 1 ≤ sv)
+    (hU : SplitKvWF pu su Uu) (hlo : fnOf Uu pu < ub) (hhi : ub < fnOf Uu su)
+    (htol : 0 ≤ tol) (hsep : ∀ x ∈ Uu, |ub - x| ≤ tol → x = ub)
+    (hmul : ∀ i, 1 ≤ i → i < su → fnOf Uu i < fnOf Uu (i + pu)) :
+    ∃ UA nA PA UB nB PB,
+      splitDir (surfShape rat pu pv Uu Uv su sv P) 0 ub tol
+        = some (surfShape rat pu pv UA (knotNormalize Uv) nA sv PA, surfShape rat pu pv UB (knotNormalize Uv) nB sv PB) ∧
+      SplitKvWF pu nA UA ∧ SplitKvWF pu nB UB ∧
+      fnOf UA 0 = 0 ∧ fnOf UA pu = (fnOf Uu pu - fnOf Uu 0) / (ub - fnOf Uu 0) ∧
+      (∀ i, nA ≤ i → fnOf UA i = 1) ∧
+      (∀ i, i ≤ pu → fnOf UB i = 0) ∧
+      fnOf UB nB = (fnOf Uu su - ub) / (fnOf Uu (su + pu) - ub) ∧ fnOf UB (nB + pu) = 1 ∧
+      PA.length = nA * sv ∧ PB.length = nB * sv ∧ NetOk d PA ∧ NetOk d PB ∧
+      nA + nB = su + (pu - findMultiplicity ub Uu tol) + 1 ∧
+      (∀ v, fnOf Uv pv ≤ v → ∀ t, 0 ≤ t → t ≤ 1 → ∀ j,
+        (surfacePoint pu pv (fnOf UA) (fnOf (knotNormalize Uv)) nA sv PA
+            (fnOf UA pu + t * (fnOf UA nA - fnOf UA pu))
+            ((v - Uv.headD 0) / (Uv.getLastD 0 - Uv.headD 0))).getD j 0
+          = (surfacePoint pu pv (fnOf Uu) (fnOf Uv) su sv P (fnOf Uu pu + t * (ub - fnOf Uu pu)) v).getD j 0) ∧
+      (∀ v, fnOf Uv pv ≤ v → ∀ t, 0 ≤ t → t ≤ 1 → ∀ j,
+        (surfacePoint pu pv (fnOf UB) (fnOf (knotNormalize Uv)) nB sv PB
+            (fnOf UB pu + t * (fnOf UB nB - fnOf UB pu))
+            ((v - Uv.headD 0) / (Uv.getLastD 0 - Uv.headD 0))).getD j 0
+          = (surfacePoint pu pv (fnOf Uu) (fnOf Uv) su sv P (ub + t * (fnOf Uu su - ub)) v).getD j 0) :=
+  split_surface_u_unclamped_main rat pu pv d Uu Uv su sv P ub tol hP hlenP hVm hVne hVr hsv hU hlo hhi
+    (multExact_of_sep_kvU pu su Uu ub tol hU hlo hhi htol hsep hmul)
+
+/-- **Splitting a surface in v, v knot vector clamped or not, end to end** (model `splitDir … 1` =
+    `split_surface_v`): the mirror image of `split_unclamped_surface_u_pieces_coincide`. -/
+theorem split_unclamped_surface_v_pieces_coincide (rat : Bool) (pu pv d : ℕ) (Uu Uv : List K) (su sv : ℕ)
+    (P : List (List K)) (vb tol : K)
+    (hP : NetOk d P) (hlenP : P.length = su * sv)
+    (hUm : Monotone (fnOf Uu)) (hUne : Uu ≠ []) (hUr : Uu.headD 0 < Uu.getLastD 0) (hsu : pu + 1 ≤ su)
+    (hV : SplitKvWF pv sv Uv) (hlo : fnOf Uv pv < vb) (hhi : vb < fnOf Uv sv)
+    (htol : 0 ≤ tol) (hsep : ∀ x ∈ Uv, |vb - x| ≤ tol → x = vb)
+    (hmul : ∀ i, 1 ≤ i → i < sv → fnOf Uv i < fnOf Uv (i + pv)) :
+    ∃ UA nA PA UB nB PB,
+      splitDir (surfShape rat pu pv Uu Uv su sv P) 1 vb tol
+        = some (surfShape rat pu pv (knotNormalize Uu) UA su nA PA, surfShape rat pu pv (knotNormalize Uu) UB su nB PB) ∧
+      SplitKvWF pv nA UA ∧ SplitKvWF pv nB UB ∧
+      fnOf UA 0 = 0 ∧ fnOf UA pv = (fnOf Uv pv - fnOf Uv 0) / (vb - fnOf Uv 0) ∧
+      (∀ i, nA ≤ i → fnOf UA i = 1) ∧
+      (∀ i, i ≤ pv → fnOf UB i = 0) ∧
+      fnOf UB nB = (fnOf Uv sv - vb) / (fnOf Uv (sv + pv) - vb) ∧ fnOf UB (nB + pv) = 1 ∧
+      PA.length = su * nA ∧ PB.length = su * nB ∧ NetOk d PA ∧ NetOk d PB ∧
+      nA + nB = sv + (pv - findMultiplicity vb Uv tol) + 1 ∧
+      (∀ u, fnOf Uu pu ≤ u → ∀ t, 0 ≤ t → t ≤ 1 → ∀ j,
+        (surfacePoint pu pv (fnOf (knotNormalize Uu)) (fnOf UA) su nA PA
+            ((u - Uu.headD 0) / (Uu.getLastD 0 - Uu.headD 0))
+            (fnOf UA pv + t * (fnOf UA nA - fnOf UA pv))).getD j 0
+          = (surfacePoint pu pv (fnOf Uu) (fnOf Uv) su sv P u (fnOf Uv pv + t * (vb - fnOf Uv pv))).getD j 0) ∧
+      (∀ u, fnOf Uu pu ≤ u → ∀ t, 0 ≤ t → t ≤ 1 → ∀ j,
+        (surfacePoint pu pv (fnOf (knotNormalize Uu)) (fnOf UB) su nB PB
+            ((u - Uu.headD 0) / (Uu.getLastD 0 - Uu.headD 0))
+            (fnOf UB pv + t * (fnOf UB nB - fnOf UB pv))).getD j 0
+          = (surfacePoint pu pv (fnOf Uu) (fnOf Uv) su sv P u (vb + t * (fnOf Uv sv - vb))).getD j 0) :=
+  split_surface_v_unclamped_main rat pu pv d Uu Uv su sv P vb tol hP hlenP hUm hUne hUr hsu hV hlo hhi
+    (multExact_of_sep_kvU pv sv Uv vb tol hV hlo hhi htol hsep hmul)
+
+/-! ### Non-vacuity, unclamped
+
+`SplitUEx.U = [0,1,3,4,6,7,9,10]` (quadratic, five control points `SplitUEx.P`, domain `[3,7]`);
+`SplitUEx.V = [-1,0,1,2]` (degree 1, two control points, domain `[0,1]`), `SplitUEx.PS` a 5 × 2 net. -/
+
+/-- splitting the unclamped quadratic at 5 (inside the span `[4,6]`): every hypothesis holds; the left
+    piece's domain starts at `(3 - 0)/(5 - 0) = 3/5`, the right piece's ends at `(7 - 5)/(10 - 5) = 2/5` -/
+example : ∃ UA PA UB PB,
+    splitDir (curveShape false 2 SplitUEx.U SplitUEx.P) 0 5 SplitUEx.tol
+      = some (curveShape false 2 UA PA, curveShape false 2 UB PB) ∧
+    fnOf UA 2 = 3/5 ∧ fnOf UB PB.length = 2/5 ∧
+    (∀ t, 0 ≤ t → t ≤ 1 → ∀ j,
+      (curvePoint 2 (fnOf UA) PA (fnOf UA 2 + t * (fnOf UA PA.length - fnOf UA 2))).getD j 0
+        = (curvePoint 2 (fnOf SplitUEx.U) SplitUEx.P (3 + t * (5 - 3))).getD j 0) := by
+  obtain ⟨UA, PA, UB, PB, h1, _, _, _, h5, _, _, h8, _, _, h11, _⟩ :=
+    split_unclamped_curve_pieces_coincide false 2 2 SplitUEx.U SplitUEx.P 5 SplitUEx.tol SplitUEx.wf (by omega)
+      (by simp [SplitUEx.U, fnOf, List.getD]; norm_num) (by simp [SplitUEx.U, SplitUEx.P, fnOf, List.getD]; norm_num)
+      (by norm_num [SplitUEx.tol]) SplitUEx.sep_five
+      (fun i h1 h2 => SplitUEx.mul_U i h1 (by simpa [SplitUEx.P] using h2))
+  refine ⟨UA, PA, UB, PB, h1, ?_, ?_, ?_⟩
+  · rw [h5]; simp [SplitUEx.U, fnOf, List.getD]
+  · rw [h8]; simp [SplitUEx.U, SplitUEx.P, fnOf, List.getD]; norm_num
+  · intro t ht0 ht1 j
+    have := h11 t ht0 ht1 j
+    simpa [SplitUEx.U, fnOf, List.getD] using this
+
+/-- splitting the unclamped quadratic at its interior knot 4 (multiplicity 1) is covered as well -/
+example : MultExact 2 (fnOf SplitUEx.U) (findSpanLinear 2 (fnOf SplitUEx.U) SplitUEx.P.length 4)
+    (findMultiplicity 4 SplitUEx.U SplitUEx.tol) 4 :=
+  find_multiplicity_exact 2 2 SplitUEx.U SplitUEx.P 4 SplitUEx.tol SplitUEx.wf (by omega)
+    (by simp [SplitUEx.U, fnOf, List.getD]; norm_num) (by simp [SplitUEx.U, SplitUEx.P, fnOf, List.getD]; norm_num)
+    (by norm_num [SplitUEx.tol]) SplitUEx.sep_four
+    (fun i h1 h2 => SplitUEx.mul_U i h1 (by simpa [SplitUEx.P] using h2))
+
+/-- both ends of the unclamped domain `[3,7]` are rejected (they are the knots `U_2`, `U_5`, not the first /
+    last knot) -/
+example : splitDir (curveShape false 2 SplitUEx.U SplitUEx.P) 0 3 SplitUEx.tol = none ∧
+    splitDir (curveShape false 2 SplitUEx.U SplitUEx.P) 0 7 SplitUEx.tol = none := by
+  have := split_curve_rejects_both_ends false 2 SplitUEx.U SplitUEx.P SplitUEx.tol
+    (by simp [SplitUEx.U]) (by simp [SplitUEx.U, SplitUEx.P])
+  simpa [SplitUEx.U, SplitUEx.P, fnOf, List.getD] using this
+
+/-- a 5 × 2 surface of degrees (2, 1), both knot vectors unclamped: splitting in u at 5 and in v at 1/3
+    satisfies the hypotheses -/
+example : ∃ UA nA PA UB nB PB,
+    splitDir (surfShape false 2 1 SplitUEx.U SplitUEx.V 5 2 SplitUEx.PS) 0 5 SplitUEx.tol
+      = some (surfShape false 2 1 UA (knotNormalize SplitUEx.V) nA 2 PA,
+              surfShape false 2 1 UB (knotNormalize SplitUEx.V) nB 2 PB) ∧
+    fnOf UA 2 = 3/5 := by
+  obtain ⟨UA, nA, PA, UB, nB, PB, h1, _, _, _, h5, _⟩ :=
+    split_unclamped_surface_u_pieces_coincide false 2 1 3 SplitUEx.U SplitUEx.V 5 2 SplitUEx.PS 5 SplitUEx.tol
+      SplitUEx.netS (by simp [SplitUEx.PS]) SplitUEx.mono_V (by simp [SplitUEx.V]) (by norm_num [SplitUEx.V]) (by omega)
+      SplitUEx.kvU (by simp [SplitUEx.U, fnOf, List.getD]; norm_num) (by simp [SplitUEx.U, fnOf, List.getD]; norm_num)
+      (by norm_num [SplitUEx.tol]) SplitUEx.sep_five SplitUEx.mul_U
+  refine ⟨UA, nA, PA, UB, nB, PB, h1, ?_⟩
+  rw [h5]; simp [SplitUEx.U, fnOf, List.getD]
+
+example : ∃ UA nA PA UB nB PB,
+    splitDir (surfShape false 2 1 SplitUEx.U SplitUEx.V 5 2 SplitUEx.PS) 1 (1/3) SplitUEx.tol
+      = some (surfShape false 2 1 (knotNormalize SplitUEx.U) UA 5 nA PA,
+              surfShape false 2 1 (knotNormalize SplitUEx.U) UB 5 nB PB) ∧
+    fnOf UA 1 = 3/4 := by
+  obtain ⟨UA, nA, PA, UB, nB, PB, h1, _, _, _, h5, _⟩ :=
+    split_unclamped_surface_v_pieces_coincide false 2 1 3 SplitUEx.U SplitUEx.V 5 2 SplitUEx.PS (1/3) SplitUEx.tol
+      SplitUEx.netS (by simp [SplitUEx.PS]) SplitUEx.mono_U (by simp [SplitUEx.U]) (by simp [SplitUEx.U]) (by omega)
+      SplitUEx.kvV (by simp [SplitUEx.V, fnOf, List.getD]) (by simp [SplitUEx.V, fnOf, List.getD]; norm_num)
+      (by norm_num [SplitUEx.tol]) SplitUEx.sep_V SplitUEx.mul_V
+  refine ⟨UA, nA, PA, UB, nB, PB, h1, ?_⟩
+  rw [h5]; simp [SplitUEx.V, fnOf, List.getD]; norm_num
 
 end C07
